@@ -163,7 +163,7 @@ def c07_3(ctx: Ctx):
     ctx.check(len(nx) == 1, ro, ro.node, "the first potential offset is taken", "offset choice changed")
 
 
-@rule("C07.5", ["C07"], "the InsertionContext names the original block, offset and function", 2)
+@rule("C07.5", ["C07", "C17"], "the InsertionContext names the original block, offset and function", 2)
 def c07_5(ctx: Ctx):
     fi = ctx.repo.func("rewriting.RewritingContext._apply_modifications")
     cs = [c for c in calls_in(fi.node) if src(c.func) == "InsertionContext"]
